@@ -43,18 +43,29 @@ def parseWith (lc : LexCfg) (c : Cfg) (cs : Chars) : ParseRes :=
   | .err => .err
   | .ok ts => match parseToks c ts with | some e => .ok e | none => .err
 
-/-- which single switch, moved from xsel's setting to XPath's, turns the model's accept/reject verdict
-    into the specification's ("multi": no single one does) -/
+/-- do two readings agree: same verdict and, if both are trees, the same tree -/
+def sameReading : ParseRes → ParseRes → Bool
+  | .ok a, .ok b => Expr.same a b
+  | .err, .err => true
+  | .unsup, .unsup => true
+  | _, _ => false
+
+/-- which single switch, moved from xsel's setting to XPath's, turns the model's reading (verdict AND
+    tree) into the specification's ("multi": no single one does) -/
 def kfSwitches (cs : Chars) : String :=
-  let want := verdict (parseSpec cs)
+  let want := parseSpec cs
   let flips : List (String × LexCfg × Cfg) := [
     ("opNames", lexModel, { cfgModel with opNames := true }),
     ("fnNames", lexModel, { cfgModel with fnNames := true }),
     ("trailDot", lexModel, { cfgModel with trailDot := true }),
     ("uscore", { lexModel with uscore := true }, cfgModel),
     ("xmlSpace", { lexModel with xmlSpace := true }, cfgModel)]
-  let hit := flips.filter (fun f => verdict (parseWith f.2.1 f.2.2 cs) == want)
+  let hit := flips.filter (fun f => sameReading (parseWith f.2.1 f.2.2 cs) want)
   if hit.isEmpty then "multi" else ",".intercalate (hit.map (·.1))
+
+/-- the switch report: "-" when the two readings agree or one of them is outside the modelled domain -/
+def kfReport (cs : Chars) (m sp : ParseRes) : String :=
+  if verdict m != "unsup" && verdict sp != "unsup" && !sameReading m sp then kfSwitches cs else "-"
 
 /-- answer to `syn`: the model lexer's tokens, the two verdicts, whether the model's tree is the given one -/
 def synAnswer (cs : Chars) (given : Option Expr) : String :=
@@ -63,7 +74,7 @@ def synAnswer (cs : Chars) (given : Option Expr) : String :=
   let ast := match m, given with
     | .ok e, some g => if Expr.same (normCtx e) (normCtx g) then "1" else "0"
     | _, _ => "-"
-  let kf := if verdict m != "unsup" && verdict sp != "unsup" && verdict m != verdict sp then kfSwitches cs else "-"
+  let kf := kfReport cs m sp
   -- the canonical spelling of the given tree reads back as the tree, under xsel's syntax and XPath's
   let rt := match given with
     | some g =>
@@ -110,7 +121,7 @@ def handle (st : DState) (line : String) : DState × String :=
         | .unsup => "unsup"
       let m := parseModel cs
       let sp := parseSpec cs
-      let kf := if verdict m != "unsup" && verdict sp != "unsup" && verdict m != verdict sp then kfSwitches cs else "-"
+      let kf := kfReport cs m sp
       (st, s!"model={run m (Model.run a en s)} spec={run sp (Spec.run a en s)} speckf={run sp (Spec.runKF a en s)} kf={kf}")
     | _, _, _, _ => (st, "bad-evalx")
   | some (.list [.atom "store", .list (.atom "evs" :: evs), ar]) =>
